@@ -35,6 +35,14 @@ EXTRA = {   # additional checks expected to notice a mutant
     'C19-pop-select-outside': ['C05'],
     'C18-init-overwrites-metadata': ['C05'],
     'C08-remove-committed-any-txn': ['C06'],
+    'C05-setdefault-no-readback': ['C12'],
+    'C06-remove-before-commit': ['C07', 'C12'],
+    'C07-timeout-leaves-txn': ['C06', 'C14'],
+    'C08-removes-survive-rollback': ['C06'],
+    'C10-removes-survive-rollback': ['C06'],
+    'C10-except-exception': ['C06'],
+    'C11-except-exception': ['C06'],
+    'C12-removes-not-cleared': ['C06'],
 }
 
 
